@@ -342,13 +342,16 @@ theorem count_diff (u v : Bytes) (hu : isBytes u = true) (hv : isBytes v = true)
       · have : ofNat a - ofNat b ≠ 0 := fun h => hab (ofNat_inj hu.1 hv.1 (sub_eq_zero.mp h))
         simp [hab, this]
 
-theorem close_eq (u v : Bytes) (hu : u.length = 12) (hv : v.length = 12) (bu : isBytes u = true)
-    (bv : isBytes v = true)
-    (su : ∀ j, 1 ≤ j → j ≤ 3 → syndrome j u = 0) (sv : ∀ j, 1 ≤ j → j ≤ 3 → syndrome j v = 0)
-    (hd : symDist u v ≤ 3) : u = v := by
+/-- the general form: two words whose syndromes at α¹ … α^t agree (both zero) and which differ in at most
+`t` octets are equal (`t ≤ 255`; `t = 3` is the code of the property, `t = 2`, `t = 1` its super-codes with the
+last roots dropped — see `Lemmas/RsSub.lean`) -/
+theorem close_eq_t (t : Nat) (ht : t ≤ 255) (u v : Bytes) (hu : u.length = 12) (hv : v.length = 12)
+    (bu : isBytes u = true) (bv : isBytes v = true)
+    (su : ∀ j, 1 ≤ j → j ≤ t → syndrome j u = 0) (sv : ∀ j, 1 ≤ j → j ≤ t → syndrome j v = 0)
+    (hd : symDist u v ≤ t) : u = v := by
   let e := List.zipWith (fun x y => x - y) (u.map ofNat) (v.map ofNat)
   have he : e.length = 12 := by simp [e, hu, hv]
-  have hsyn : ∀ j, 1 ≤ j → j ≤ 3 → horner (α ^ j) e = 0 := by
+  have hsyn : ∀ j, 1 ≤ j → j ≤ t → horner (α ^ j) e = 0 := by
     intro j h1 h3
     have a := (evalAt_eq_zero_iff _ (exp_lt j) u bu).mp (su j h1 h3)
     have b := (evalAt_eq_zero_iff _ (exp_lt j) v bv).mp (sv j h1 h3)
@@ -360,7 +363,7 @@ theorem close_eq (u v : Bytes) (hu : u.length = 12) (hv : v.length = 12) (bu : i
       simp only [Finset.mem_range] at hi hk
       have := alpha_pow_inj _ _ (by omega) (by omega) h
       omega)
-    3 (fun i => e.getD i 0)
+    t (fun i => e.getD i 0)
     (by
       rw [Finset.card_filter]
       have := count_sum e
@@ -384,6 +387,12 @@ theorem close_eq (u v : Bytes) (hu : u.length = 12) (hv : v.length = 12) (bu : i
   have bu' := (isBytes_iff u).mp bu u[i] (List.getElem_mem h1)
   have bv' := (isBytes_iff v).mp bv v[i] (List.getElem_mem h2)
   exact ofNat_inj bu' bv' (sub_eq_zero.mp this)
+
+theorem close_eq (u v : Bytes) (hu : u.length = 12) (hv : v.length = 12) (bu : isBytes u = true)
+    (bv : isBytes v = true)
+    (su : ∀ j, 1 ≤ j → j ≤ 3 → syndrome j u = 0) (sv : ∀ j, 1 ≤ j → j ≤ 3 → syndrome j v = 0)
+    (hd : symDist u v ≤ 3) : u = v :=
+  close_eq_t 3 (by omega) u v hu hv bu bv su sv hd
 
 /-! ### distance bookkeeping -/
 
